@@ -64,6 +64,22 @@ Proof. exact @handle_no_leak. Qed.
 Theorem C06_no_leak_at : forall (T : Type) (N : Num T) c (s : fstate T) st ms, no_leak s -> no_leak (fst (fst (handle_at c s st ms))).
 Proof. exact @handle_at_no_leak. Qed.
 
+(** Non-vacuity (Q instance): an episode opened by a move into a region, three deferred commands inside it. *)
+Open Scope string_scope.
+Definition ex6_cmd (t g : string) (ws : list (string * Q)) : icmd Q :=
+  mkCmd t g (map (fun w => (fst w, MNum (snd w))) ws) None [].
+Definition ex6_cfg : cfg := mkCfg false ["M117 in"] ["M117 out"] [("M204", XMerge); ("M117", XLast); ("G4", XExclude); ("M73", XFirst)].
+Definition ex6_state : fstate Q := fst (handle ex6_cfg (init_state [Rect "a" (10#1) (10#1) (20#1) (20#1)]) (ex6_cmd "G1 X5 Y5 E1" "G1" [("X", 5#1); ("Y", 5#1); ("E", 1#1)])).
+Definition ex6_open : icmd Q := ex6_cmd "G1 X15 Y15 E2" "G1" [("X", 15#1); ("Y", 15#1); ("E", 2#1)].
+Definition ex6_inside : list (icmd Q) :=
+  [ ex6_cmd "M204 S500" "M204" [("S", 500#1)]; mkCmd "M117 a" "M117" [("A", MNone); ("", MStr "a")] None [];
+    ex6_cmd "G1 X16 Y16 E3" "G1" [("X", 16#1); ("Y", 16#1); ("E", 3#1)]; ex6_cmd "M204 P7" "M204" [("P", 7#1)]; ex6_cmd "M73 P5" "M73" [("P", 5#1)] ].
+Example C06_nonvacuous :
+  excluding ex6_state = false /\ no_leak ex6_state /\ excluding (fst (handle ex6_cfg ex6_state ex6_open)) = true /\
+  inside_run ex6_cfg (fst (handle ex6_cfg ex6_state ex6_open)) ex6_inside /\
+  map fst (pending (run_state ex6_cfg (fst (handle ex6_cfg ex6_state ex6_open)) ex6_inside)) = ["M117"; "M204"; "M73"].
+Proof. vm_compute. repeat split; intros; reflexivity. Qed.
+
 Print Assumptions C06_modes.
 Print Assumptions C06_flush.
 Print Assumptions C06_order.
